@@ -224,7 +224,13 @@ pub fn drive(ctx: &mut Ctx, h: Hostile) {
         }
     }
     if HeapWindow::enabled() {
-        let bound = 256 * 1024 + 4 * (served + delivered);
+        // memory may be proportional to what was really received - and, for a body that declares
+        // a gzip/deflate coding, to what that input inflates to (deflate expands by up to 1032:1;
+        // the decoded bytes are buffered by bytes()/text() even when the call then fails and
+        // `delivered` is 0) - never to a size merely declared on the wire
+        let lower = h.input.to_ascii_lowercase();
+        let coded = lower.windows(4).any(|w| w == b"gzip") || lower.windows(7).any(|w| w == b"deflate");
+        let bound = 256 * 1024 + 4 * (served + delivered) + if coded { 2 * 1032 * served } else { 0 };
         ctx.max("max_peak_heap", peak as u64);
         ctx.max("max_single_allocation", largest as u64);
         if peak > bound {
